@@ -1,11 +1,16 @@
 (** Property C13 -- redirects never leak credentials or stale framing to the next request.
     Statements only; proofs are in proofs/C13_proofs.v (as_new_flow, chains), proofs/C13_script.v
     (histories of Script operations) and proofs/C13_examples.v (the concrete chains); the writer
-    and analysis facts come from C02 / C17. *)
+    and analysis facts come from C02 / C17.
+    Additions after review 3 (end of file): proofs/C13_more.v (Authorization ignoring case, stale
+    framing, what the analysis appends) and proofs/C13_added.v (nothing the caller added at an
+    earlier hop survives, on histories of Script operations). *)
 From Coq Require Import List.
 From Hoot Require Import Base Chunk Body Httparse Parser Url Request Call Flow Script.
 From Hoot.proofs Require Import BytesLemmas C17_proofs C02_proofs C02_analysis
                                 C13_proofs C13_script C13_examples.
+From Hoot.proofs Require C14_more.
+From Hoot.proofs Require Import C13_more C13_added.
 Open Scope N_scope.
 
 (* ------------------------------------------------------------------ the specification *)
@@ -27,7 +32,9 @@ Theorem c13_suppression_def : forall p orig t,
 Proof. intros. split; reflexivity. Qed.
 
 (** [flow_op f f']: one operation of Flow.v, in any state, turned the flow [f] into [f'] (a failed
-    operation returns no flow, the caller keeps the one it had).
+    operation returns no flow, the caller keeps the one it had -- except a failed body read: the
+    Rust decoder is mutated in place, so the flow the caller holds afterwards is
+    [recv_body_after_err f input cap], Flow.v; that is a [flow_op] as well).
     [chain orig hops f]: [f] is a flow of the redirect chain started by [flow_new orig]; [hops] lists
     the (policy, resolved target) of the redirects followed so far, oldest first, so [f] is a flow
     of hop [length hops]; between two redirects any operations, in any number. *)
@@ -53,6 +60,7 @@ Theorem c13_flow_op_def : forall f,
   (forall input f' used got, recv_try_response f input = Ok (f', used, got) -> flow_op f f') /\
   (forall t f', recv_response_proceed f = Ok (Some (t, f')) -> flow_op f f') /\
   (forall input cap f' i o, recv_body_read f input cap = Ok (f', i, o) -> flow_op f f') /\
+  (forall input cap e, recv_body_read f input cap = Err e -> flow_op f (recv_body_after_err f input cap)) /\
   (forall b f', recv_body_stop f b = Ok f' -> flow_op f f') /\
   (forall t f', recv_body_proceed f = Ok (Some (t, f')) -> flow_op f f').
 Proof.
@@ -60,7 +68,7 @@ Proof.
   split; [apply fo_sr_proceed|]. split; [apply fo_try_100|]. split; [apply fo_await_proceed|].
   split; [apply fo_body_write|]. split; [apply fo_body_direct|]. split; [apply fo_sb_proceed|].
   split; [apply fo_try_response|]. split; [apply fo_rr_proceed|]. split; [apply fo_read|].
-  split; [apply fo_stop|apply fo_rb_proceed].
+  split; [apply fo_read_err|]. split; [apply fo_stop|apply fo_rb_proceed].
 Qed.
 
 (* ------------------------------------------------------------------ one redirect *)
@@ -97,7 +105,10 @@ Proof. exact c13_op_preserves_lemma. Qed.
 
 (** The pushes onto the suppression list never overflow it (at most 3 = UNSET_CAP on a new list);
     the only panics of [as_new_flow] are: no status recorded (not in the Redirect state), a base
-    URI without scheme, a second call on the same redirect flow. *)
+    URI without scheme, a second call on the same redirect flow.
+    (Since the repair of F19 the second site is gone -- a scheme-less base is reported as
+    BadLocationHeader; the statement below is still true, [c13_panic_sites] at the end of the file
+    is the exact one.) *)
 Theorem c13_unset_no_panic : forall f p,
   as_new_flow f p <> Panic "util.rs: ArrayVec::push (unset)" /\
   forall site, as_new_flow f p = Panic site ->
@@ -255,6 +266,192 @@ Proof.
   vm_compute. repeat split; auto; discriminate.
 Qed.
 
+(* ================================================================== additions after review 3 *)
+
+(* ------------------------------------------------------------------ Authorization, ignoring case *)
+
+(** [lower_names orig]: the convention of Request.v -- header names of the request the caller
+    handed over are lower case ([http::HeaderName] always is). *)
+Theorem c13_lower_names_def : forall r,
+  lower_names r <-> Forall (fun h => lower (fst h) = fst h) (rq_headers r).
+Proof. reflexivity. Qed.
+
+(** [c13_auth_iff] for a header named "authorization" in ANY letter case: it is effective at a hop
+    iff the original request has it, the policy of this hop is same-host, and host / scheme of this
+    target compare as required with those of the ORIGINAL request. *)
+Theorem c13_auth_iff_ci : forall orig hops p t f h,
+  lower_names orig -> chain orig (hops ++ [(p, t)]) f -> lower (fst h) = s2b "authorization" ->
+  (In h (am_inherited (req_of f)) <->
+   In h (rq_headers orig) /\ p = SameHost /\ uri_host (rq_uri orig) = uri_host t /\
+   (u_scheme (rq_uri orig) = u_scheme t \/ u_scheme t = s2b "https")).
+Proof. exact auth_iff_ci. Qed.
+
+Theorem c13_never_ci : forall orig hops t f h,
+  lower_names orig -> chain orig (hops ++ [(Never, t)]) f -> lower (fst h) = s2b "authorization" ->
+  ~ In h (am_inherited (req_of f)).
+Proof. exact never_ci. Qed.
+
+(** The hypotheses hold on the two-hop chain of [c13_nonvacuous]; and the convention is needed in
+    the model: a record with a capitalised name -- which an [http::Request] cannot hold -- would
+    pass the exact-name filter. *)
+Example c13_ci_nonvacuous :
+  (lower_names ex13_orig /\
+   chain ex13_orig ([(SameHost, uri_b)] ++ [(SameHost, uri_a)]) (flow_at 19) /\
+   In (s2b "authorization", s2b "secret") (am_inherited (req_of (flow_at 19))) /\
+   ~ In (s2b "authorization", s2b "secret") (am_inherited (req_of (flow_at 10)))) /\
+  (~ lower_names ex_capital /\
+   hop_inherited ex_capital Never {| u_scheme := s2b "http"; u_auth := s2b "b.test"; u_pq := s2b "/" |}
+     = [(s2b "Authorization", s2b "secret")]).
+Proof. split; [exact ci_nonvacuous|exact ci_convention_needed]. Qed.
+
+(* ------------------------------------------------------------------ nothing survives from earlier hops *)
+
+(** [offered ops]: the (name, value) pairs the history passed to [header()] SINCE THE FLOW IT HOLDS
+    WAS CREATED -- by [new], or by [follow] after a successful [as_new_flow]. *)
+Theorem c13_offered_def : forall ops o s acc,
+  offered ops = snd (run_offered ops) /\
+  run_offered [] = (s_init, []) /\
+  run_offered (ops ++ [o]) =
+    (fst (step (fst (run_offered ops)) o), offer (fst (run_offered ops)) (snd (run_offered ops)) o) /\
+  fst (run_offered ops) = run_ops s_init ops /\
+  offer s acc o = (if creates s o then []
+                   else match o with OHeader k v => acc ++ [(k, v)] | _ => acc end) /\
+  creates s o = match o with
+                | ONew r => match flow_new r with Ok _ => true | _ => false end
+                | OFollow => match s_next s with Some _ => true | None => false end
+                | _ => false
+                end.
+Proof.
+  intros. split; [reflexivity|]. split; [reflexivity|]. split; [apply run_offered_snoc|].
+  split; [apply run_offered_state|]. split; reflexivity.
+Qed.
+
+(** A header the analysis of a request appends: Host for the request's effective URI, or one
+    framing header. *)
+Theorem c13_analysis_header_def : forall a h,
+  analysis_header a h <->
+  h = (s2b "host", uri_host (am_eff_uri a)) \/
+  h = (s2b "transfer-encoding", s2b "chunked") \/
+  exists n, h = (s2b "content-length", dec_of n).
+Proof. reflexivity. Qed.
+
+(** For every history of Script operations, every effective header of the flow it holds is
+      - one the caller offered with [header()] since THIS flow was created (lower-cased name), or
+      - appended by the analysis of THIS flow (Host of the current URI, framing), or
+      - a header of the ORIGINAL request of the chain that the suppression list of the last hop
+        lets through.
+    Nothing else: what the caller added at an earlier hop (cookies, tokens, a Host override, ...)
+    is gone unless offered again.  (Assembled from [c13_rebuilt_from_original]: [am_added = []]
+    on the new flow, and a refinement of [c13_op_preserves]: operations other than [header()]
+    append analysis headers only.) *)
+Theorem c13_nothing_survives_from_earlier_hops : forall ops t f,
+  s_obj (run_ops s_init ops) = ObFlow t f -> am_req (req_of f) <> None ->
+  exists orig hops,
+    In (ONew orig) ops /\ chain orig hops f /\
+    forall h, In h (am_headers (req_of f)) ->
+      (exists k v, In (k, v) (offered ops) /\ h = (lower k, v)) \/
+      analysis_header (req_of f) h \/
+      (In h (rq_headers orig) /\ mem_bytes (fst h) (hop_unset orig hops) = false).
+Proof. exact nothing_survives. Qed.
+
+Theorem c13_hop_unset_def : forall orig hops p t,
+  hop_unset orig [] = [] /\ hop_unset orig (hops ++ [(p, t)]) = unset_list p (rq_uri orig) t.
+Proof. intros. split; [reflexivity|]. unfold hop_unset. rewrite rev_unit. reflexivity. Qed.
+
+(** The step underneath: an operation of the script other than [new], [header], [as_new_flow],
+    [follow] leaves the request as it is or appends analysis headers. *)
+Theorem c13_script_step_adds : forall s o t f t' f',
+  s_obj s = ObFlow t f -> s_obj (fst (step s o)) = ObFlow t' f' ->
+  (forall r, o <> ONew r) -> (forall p, o <> OAsNewFlow p) -> o <> OFollow ->
+  (forall k v, o <> OHeader k v) ->
+  f' = f \/ exists l, req_of f' = with_added (req_of f) l /\ Forall (analysis_header (req_of f)) l.
+Proof.
+  intros s o t f t' f' Hs H H1 H2 H3 H4. apply (script_step_faext s o t f t' f' Hs H); [|exact H4].
+  destruct o; try reflexivity; exfalso; [eapply H1|eapply H2|apply H3]; reflexivity.
+Qed.
+
+(** Headers added at hop 0 ("x-token", "cookie: fresh=1") are absent at hop 1; the cookie added at
+    hop 1 is present although the inherited one is suppressed. *)
+Example c13_added_not_carried :
+  heads (run_obs s_init ops_added) =
+  [ s2b "GET /start HTTP/1.1" ++ CRLF ++ s2b "x-token: 1" ++ CRLF ++ s2b "cookie: fresh=1" ++ CRLF ++
+    s2b "host: a.test" ++ CRLF ++ s2b "authorization: secret" ++ CRLF ++ s2b "cookie: c=1" ++ CRLF ++
+    s2b "accept: */*" ++ CRLF ++ CRLF;
+    s2b "GET /one HTTP/1.1" ++ CRLF ++ s2b "cookie: c2" ++ CRLF ++ s2b "host: b.test" ++ CRLF ++
+    s2b "accept: */*" ++ CRLF ++ CRLF ] /\
+  offered ops_added = [(s2b "Cookie", s2b "c2")] /\
+  offered (firstn 3 ops_added) = [(s2b "X-Token", s2b "1"); (s2b "cookie", s2b "fresh=1")] /\
+  exists t f, s_obj (run_ops s_init ops_added) = ObFlow t f /\ am_req (req_of f) <> None /\
+              am_added (req_of f) = [(s2b "cookie", s2b "c2"); (s2b "host", s2b "b.test")].
+Proof. exact added_not_carried. Qed.
+
+Theorem c13_ops_added_def :
+  ops_added =
+    [ONew ex13_orig; OHeader (s2b "X-Token") (s2b "1"); OHeader (s2b "cookie") (s2b "fresh=1")] ++
+    exchange loc_b SameHost ++ [OHeader (s2b "Cookie") (s2b "c2"); OProceed; OWriteHead 4096].
+Proof. reflexivity. Qed.
+
+(* ------------------------------------------------------------------ stale framing *)
+
+(** The suppression list holds at most the three names of the statement, nothing else. *)
+Theorem c13_suppressed_names : forall p u t k,
+  mem_bytes k (unset_list p u t) = true ->
+  k = s2b "authorization" \/ k = s2b "cookie" \/ k = s2b "content-length".
+Proof. exact suppressed_names. Qed.
+
+(** OBSERVATION on the title ("stale framing").  The statement lists Cookie, Content-Length and
+    Authorization; it does NOT list Transfer-Encoding, and the code does not suppress it: an
+    inherited "transfer-encoding" field of the original request is effective at every hop,
+    whatever policy and target (instance of [c13_other_headers]).  So of the two framing headers
+    only Content-Length is dropped.  This does not contradict the statement as written; it is
+    recorded because of its consequence ([c13_stale_te_script]): a POST that carries its own
+    "transfer-encoding: chunked" and is answered 301/302/303 becomes a GET that still announces a
+    chunked body; the analysis of that GET refuses it (MethodForbidsBody), i.e. the redirect
+    cannot be followed, whereas the same POST with "content-length" can. *)
+Theorem c13_inherited_te_survives : forall orig hops p t f v,
+  chain orig (hops ++ [(p, t)]) f ->
+  (In (s2b "transfer-encoding", v) (am_inherited (req_of f)) <->
+   In (s2b "transfer-encoding", v) (rq_headers orig)) /\
+  (In (s2b "transfer-encoding", v) (rq_headers orig) ->
+   In (s2b "transfer-encoding", v) (am_headers (req_of f))).
+Proof. exact inherited_te_survives. Qed.
+
+Example c13_stale_te_script :
+  lower_names te_post /\
+  heads (run_obs s_init ops_te) =
+    [ s2b "POST /form HTTP/1.1" ++ CRLF ++ s2b "host: a.test" ++ CRLF ++
+      s2b "transfer-encoding: chunked" ++ CRLF ++ s2b "content-type: text/plain" ++ CRLF ++ CRLF ] /\
+  last (run_obs s_init ops_te) [] = [w "ok"] /\
+  snd (step (run_ops s_init ops_te) OQMethod) = [TW (s2b "GET")] /\
+  (exists t f, s_obj (run_ops s_init ops_te) = ObFlow t f /\
+     am_headers (req_of f) = [(s2b "transfer-encoding", s2b "chunked"); (s2b "content-type", s2b "text/plain")]) /\
+  last (run_obs s_init (ops_te ++ [OProceed; OWriteHead 4096])) [] = obs_err MethodForbidsBody.
+Proof. exact te_script. Qed.
+
+Theorem c13_ops_te_def :
+  te_post = {| rq_method := POST; rq_version := V11;
+               rq_uri := {| u_scheme := s2b "http"; u_auth := s2b "a.test"; u_pq := s2b "/form" |};
+               rq_headers := [(s2b "transfer-encoding", s2b "chunked"); (s2b "content-type", s2b "text/plain")] |} /\
+  ops_te =
+    [ONew te_post; OProceed; OWriteHead 4096; OProceed; OWriteBody (s2b "hello") 4096; OWriteBody [] 4096;
+     OProceed; OSetStream (response_303 (s2b "/done")); OArrive (len (response_303 (s2b "/done")));
+     OTryResponse; OProceed; OAsNewFlow Never; OFollow] /\
+  response_303 (s2b "/done") =
+    s2b "HTTP/1.1 303 See Other" ++ CRLF ++ s2b "Location: /done" ++ CRLF ++
+    s2b "Content-Length: 0" ++ CRLF ++ CRLF.
+Proof. repeat split. Qed.
+
+(* ------------------------------------------------------------------ panics of as_new_flow, after the repair of F19 *)
+
+(** [c13_unset_no_panic] lists three panic sites; since the repair of F19 (a base URI without
+    scheme is reported as BadLocationHeader) the second one is gone.  Exactly two remain. *)
+Theorem c13_panic_sites : forall f p site,
+  as_new_flow f p = Panic site ->
+  (i_status f = None /\ site = "flow.rs: status.unwrap() in as_new_flow"%string) \/
+  (am_req (req_of f) = None /\ u_scheme (am_eff_uri (req_of f)) <> [] /\
+   site = "amended.rs: body.unwrap() in take_request"%string).
+Proof. exact C14_more.as_new_flow_panic_cases. Qed.
+
 Print Assumptions c13_keep_auth_def.
 Print Assumptions c13_suppression_def.
 Print Assumptions c13_chain_def.
@@ -274,3 +471,19 @@ Print Assumptions c13_script.
 Print Assumptions c13_two_hops.
 Print Assumptions c13_downgrade.
 Print Assumptions c13_nonvacuous.
+Print Assumptions c13_lower_names_def.
+Print Assumptions c13_auth_iff_ci.
+Print Assumptions c13_never_ci.
+Print Assumptions c13_ci_nonvacuous.
+Print Assumptions c13_offered_def.
+Print Assumptions c13_analysis_header_def.
+Print Assumptions c13_nothing_survives_from_earlier_hops.
+Print Assumptions c13_hop_unset_def.
+Print Assumptions c13_script_step_adds.
+Print Assumptions c13_added_not_carried.
+Print Assumptions c13_ops_added_def.
+Print Assumptions c13_suppressed_names.
+Print Assumptions c13_inherited_te_survives.
+Print Assumptions c13_stale_te_script.
+Print Assumptions c13_ops_te_def.
+Print Assumptions c13_panic_sites.
